@@ -268,7 +268,8 @@ def rule_units_ops(ctx, py):
     okeq = False
     if len(lp) == 1:
         k = pyfe.src(lp[0].target)
-        tests = [n.test for n in ast.walk(lp[0]) if isinstance(n, ast.If) and any(
+        from .. import pysym
+        tests = [pysym.inline(n.test, f, stop={k}) for n in ast.walk(lp[0]) if isinstance(n, ast.If) and any(
             isinstance(b, ast.Return) and isinstance(b.value, ast.Constant) and b.value.value is False for b in n.body)]
         v_ = [p_ for p_ in pyfe.params(f) if p_ != "self"][0]
         A, B, C_ = "self.dim[%s] == %s.dim[%s]" % (k, v_, k), "self.dim[%s] == 0" % k, "self.sys[%s] == %s.sys[%s]" % (k, v_, k)
